@@ -103,16 +103,22 @@ def conserve(ctx, shard, nshards):
             elif kind == "undocumented":
                 with_time = True
             else:
-                with_time = False
+                # the statement quantifies over date-times; dates are C05's domain for these formats
+                with_time = rnd.random() < 0.5
             rep = "ywd" if kind == "isoweek" else "ymd"
             fmt, order = G.make_format(rnd, us0)
             a = rnd.choice(B) if rnd.random() < 0.6 else rnd.randrange(R.NMIN + 200, R.NMAX - 200)
             a = max(R.NMIN + 200, min(R.NMAX - 200, a))
             cal = kind in ("calendar", "isoweek")
-            if cal and R.ymd(a)[2] > 28:
+            # with a time part the tools shift the earlier date by a day before they take the calendar
+            # difference; that agrees with "largest unit first from the earlier value" when the day
+            # after the earlier date exists in every month / ISO year as well: day <= 27, week <= 51
+            dmax = 27 if with_time else 28
+            wmax = 51 if with_time else 52
+            if cal and R.ymd(a)[2] > dmax:
                 a -= 4
-            if kind == "isoweek" and R.iso(a)[1] > 52:
-                a -= 7
+            if kind == "isoweek" and R.iso(a)[1] > wmax:
+                a -= 14
             sa = rnd.choice((0, 1, 43200, 86399, rnd.randrange(86400))) if with_time else 0
             Bs = []
             for _ in range(rnd.randrange(30, 80)):
@@ -124,10 +130,10 @@ def conserve(ctx, shard, nshards):
                 if not (R.NMIN + 100 <= n <= R.NMAX - 100):
                     continue
                 if cal and t < a * 86400 + sa:
-                    if R.ymd(n)[2] > 28:
+                    if R.ymd(n)[2] > dmax:
                         n -= 4
-                    if kind == "isoweek" and R.iso(n)[1] > 52:
-                        n -= 7
+                    if kind == "isoweek" and R.iso(n)[1] > wmax:
+                        n -= 14
                 Bs.append((n, s))
             if not Bs:
                 continue
